@@ -2,7 +2,7 @@
    The write-side convert (writer.convert, model Impl/WConvert.v) followed by the read-side convert
    (converted_types.convert + the cast into the column, model Impl/RConvert.v) gives back the cell. *)
 From Coq Require Import NArith ZArith List.
-From Pq Require Import Base.Bytes Format.Phys Impl.RConvert Impl.WConvert Proofs.WConvertProofs.
+From Pq Require Import Base.Bytes Format.Phys Impl.RConvert Impl.WConvert Proofs.WConvertProofs Proofs.WConvert96Proofs.
 Import ListNotations.
 Local Open Scope Z_scope.
 
@@ -30,6 +30,13 @@ Theorem C01_datetime_seconds_overflow_refuted :
     read_back INT64 (dt_conv WS) (dt_lunit WS) (w_datetime WS v) <> Some (Some (LTimestamp TMs (v * 1000))).
 Proof. exact datetime_seconds_overflow_refuted. Qed.
 Print Assumptions C01_datetime_seconds_overflow_refuted.
+
+(* times='int96', every unit: nanoseconds of the day + Julian day, read back as the same instant in nanoseconds
+   (guards: the value in ns fits int64 and is not the NaT pattern) *)
+Theorem C01_int96_roundtrip_partial : forall u v, in64 v -> in64 (v * ns_per u) -> v * ns_per u <> NATZ ->
+  read_back INT96 None None (w_int96 u v) = Some (Some (LTimestamp TNs (v * ns_per u))).
+Proof. exact int96_roundtrip. Qed.
+Print Assumptions C01_int96_roundtrip_partial.
 
 (* timedelta64[s|ms|us|ns] -> TIME_MICROS: the duration in microseconds (ns: floor division, exact for whole microseconds) *)
 Theorem C01_timedelta_roundtrip_partial : forall u v, in64 v -> v <> NATZ -> in64 (td_us u v) -> td_us u v <> NATZ ->
